@@ -14,7 +14,7 @@ RULE = ('Hypothesis-generated histories over a small resource tree (root, sub-ma
         'of counting handles whose load() returns a FRESH object of a generated kind on every call (None, 0, 0.0, '
         'empty str/list/dict, False, NaN, objects whose __bool__ raises / __eq__ is always False / __eq__ '
         'raises, a World for world handles): accesses through every path - handle(), root[path], chained [], '
-        'enclosing_map[suffix], get(path)(), attribute and item chains and get() on static snapshots taken at '
+        'enclosing_map[suffix], get(path)(), a world description file in the same tree naming the resource as $res{a.b} (loaded through a new WorldFromFileHandle), attribute and item chains and get() on static snapshots taken at '
         'generated moments, SimpleLoop.switch(handle, clear_current, clear_next) for world handles - '
         'interleaved with handle.clear() and with replacement of a handle in the map by a new one (the old handle '
         'stays in the program\'s hands and keeps being accessed) and with loads armed to FAIL once (load() raises, '
@@ -75,7 +75,7 @@ LAYOUT = [(['ha'], False), (['hb'], False), (['sub', 'hc'], False), (['sub', 'de
           (['sub', 'hw'], True), (['lay', 'hk'], False), (['hv'], True),
           # private-looking names (two leading underscores) are names like any other
           (['__hp'], False), (['sub', '__hq'], False)]
-ACCESS = ['call', 'root_item', 'chained', 'enclosing', 'get_call', 'snap_attr', 'snap_item', 'snap_get']
+ACCESS = ['call', 'root_item', 'chained', 'enclosing', 'get_call', 'snap_attr', 'snap_item', 'snap_get', 'world_file']
 
 
 class LoadFailed(Exception):
@@ -103,7 +103,9 @@ class Counting(desper.Handle):
 def decode_op(t):
     sel, p = t
     kind = ('access', 'access', 'access', 'access', 'access', 'access', 'clear', 'clear', 'snapshot', 'switch',
-            'replace', 'orphan', 'failnext', 'bulk')[sel % 14]
+            'replace', 'orphan', 'failnext', 'bulk', 'cycle', 'cycle')[sel % 16]
+    if kind == 'cycle':
+        return ['cycle', p % 9, p // 9 % 9, p // 81 % 9]
     if kind == 'bulk':
         return ['bulk', p % 4]
     if kind == 'failnext':
@@ -113,7 +115,7 @@ def decode_op(t):
     if kind == 'orphan':
         return ['orphan', p % 8]
     if kind == 'access':
-        return ['access', p % 12, p // 12 % 8, p // 96 % 4]     # handle selectors >= 7: the handle touched last
+        return ['access', p % 12, p // 12 % 9, p // 108 % 4]     # handle selectors >= 7: the handle touched last
     if kind == 'clear':
         return ['clear', p % 12]
     if kind == 'switch':
@@ -122,7 +124,7 @@ def decode_op(t):
 
 
 def strategy():
-    op = st.tuples(st.integers(0, 13), worldops.packed(12 * 8 * 4)).map(decode_op)
+    op = st.tuples(st.integers(0, 15), worldops.packed(12 * 9 * 4 * 2)).map(decode_op)
     return st.fixed_dictionaries({
         'kinds': st.lists(st.integers(0, len(KINDS) - 1), min_size=5, max_size=5),
         'ops': worldops.chunked(op, 40),
@@ -323,6 +325,8 @@ class Run:
                 got = m['/'.join(path[k:])]
             elif how == 'get_call':
                 got = self.root.get('/'.join(path))()
+            elif how == 'world_file':
+                got = self.via_world_file(ix, path)
             else:
                 if self.snapshot is None:
                     self.snapshot = self.root.get_static_map()
@@ -353,6 +357,42 @@ class Run:
             self.flags['access_after_a_failed_load'] += 1
         self.expect_access(ix, got, how)
         self.flags['access:' + how] += 1
+
+    def via_world_file(self, ix, path):
+        """one more way to reach a resource: a world description (JSON file) in the same tree names it as
+        $res{a.b}; loading that world hands the resource to a component's constructor"""
+        import json
+        import os
+        import tempfile
+        import verif_fixtures as fx
+        if self.tmpdir is None:
+            self.tmpdir = tempfile.mkdtemp(prefix='desper-c12-')
+        f = os.path.join(self.tmpdir, 'w%d.json' % ix)
+        if not os.path.exists(f):
+            with open(f, 'w') as fh:
+                json.dump({'processors': [], 'entities': [{'components': [
+                    {'type': 'verif_fixtures.PlainA', 'args': ['$res{%s}' % '.'.join(path)]}]}]}, fh)
+        wfh = desper.WorldFromFileHandle(f)
+        self.root['wf/w%d' % ix] = wfh          # (a new, not yet loaded world handle at every such access)
+        world = wfh()
+        comps = [c for _e, c in world.get(fx.PlainA)]
+        if len(comps) != 1 or len(comps[0].args) != 1:
+            self.viol('harness_world_file_access_found_no_component')
+        return comps[0].args[0]
+
+    def op_cycle(self, sel, how1, how2):
+        """one handle reached by two paths, cleared, and reached by the same two paths the other way round"""
+        if how1 == how2:
+            how2 = (how2 + 1) % len(ACCESS)
+        self.op_access(sel, how1, 1)
+        self.check_flags()
+        self.op_access(11, how2, 2)
+        self.check_flags()
+        self.op_clear(11)
+        self.check_flags()
+        self.op_access(11, how2, 1)
+        self.check_flags()
+        self.op_access(11, how1, 2)
 
     def op_clear(self, sel):
         ix = self.pick(sel)
@@ -413,10 +453,25 @@ class Run:
                           expected=self.m_loads[ix])
 
     def run(self):
-        self.check_flags()
-        for self.step_ix, op in enumerate(self.case['ops']):
-            getattr(self, 'op_' + op[0])(*op[1:])
+        self.tmpdir = None
+        try:
             self.check_flags()
+            for self.step_ix, op in enumerate(self.case['ops']):
+                getattr(self, 'op_' + op[0])(*op[1:])
+                self.check_flags()
+            if self.case.get('amp') and not getattr(self, 'bulk_done', False):
+                # scaled cases load their big level at the latest now; what was loaded before stays as it was
+                self.step_ix = len(self.case['ops'])
+                self.op_bulk(len(self.case['ops']))
+                self.check_flags()
+                for ix in range(len(LAYOUT)):
+                    if self.m_cached[ix]:
+                        self.op_access(ix, ix % 5, 1)
+                        self.check_flags()
+        finally:
+            if self.tmpdir is not None:
+                import shutil
+                shutil.rmtree(self.tmpdir, ignore_errors=True)
         return self
 
 
